@@ -23,7 +23,7 @@ use serde::de::DeserializeOwned;
 
 use crate::ksf::{DynKsf, KsfBuild, KsfSpec};
 use crate::proto::*;
-use crate::remote::{RemoteErr, RemoteKey};
+use crate::remote::{self, RemoteErr, RemoteKey, RemoteKeyH};
 use crate::tape::TapeRng;
 
 // ------------------------------------------------------------------ errors
@@ -491,12 +491,20 @@ macro_rules! suite {
             ) -> PResult<Box<dyn Any + Send + Sync>> {
                 let inner = <PrivateKey<$ke> as SecretKey<$ke>>::deserialize(sk)
                     .map_err(|e| PErr::Library(ci(e)))?;
+                if remote::short_handle() {
+                    let kp = KeyPair::<$ke, RemoteKeyH<$ke>>::from_private_key(RemoteKeyH::new(inner))
+                        .map_err(cpr)?;
+                    return Ok(Box::new(ServerSetup::<$name, RemoteKeyH<$ke>>::new_with_key(rng, kp)));
+                }
                 let kp = KeyPair::<$ke, RemoteKey<$ke>>::from_private_key(RemoteKey::new(inner))
                     .map_err(cpr)?;
                 Ok(Box::new(ServerSetup::<$name, RemoteKey<$ke>>::new_with_key(rng, kp)))
             }
 
             fn remote_setup_serialize(&self, setup: &(dyn Any + Send + Sync)) -> Vec<u8> {
+                if let Some(h) = setup.downcast_ref::<ServerSetup<$name, RemoteKeyH<$ke>>>() {
+                    return h.serialize().to_vec();
+                }
                 setup
                     .downcast_ref::<ServerSetup<$name, RemoteKey<$ke>>>()
                     .expect("HARNESS-BUG: remote setup type")
@@ -505,6 +513,10 @@ macro_rules! suite {
             }
 
             fn remote_setup_deserialize(&self, bytes: &[u8]) -> PResult<Box<dyn Any + Send + Sync>> {
+                if remote::short_handle() {
+                    let s = ServerSetup::<$name, RemoteKeyH<$ke>>::deserialize(bytes).map_err(cpr)?;
+                    return Ok(Box::new(s));
+                }
                 let s = ServerSetup::<$name, RemoteKey<$ke>>::deserialize(bytes).map_err(cpr)?;
                 Ok(Box::new(s))
             }
@@ -515,6 +527,15 @@ macro_rules! suite {
                 req: &Obj,
                 cred_id: &[u8],
             ) -> PResult<Obj> {
+                if let Some(h) = setup.downcast_ref::<ServerSetup<$name, RemoteKeyH<$ke>>>() {
+                    let ServerRegistrationStartResult { message } = ServerRegistration::<$name>::start(
+                        h,
+                        req.get::<RegistrationRequest<$name>>().clone(),
+                        cred_id,
+                    )
+                    .map_err(cp)?;
+                    return Ok(mk(Ty::RegResp, $label, message));
+                }
                 let setup = setup
                     .downcast_ref::<ServerSetup<$name, RemoteKey<$ke>>>()
                     .expect("HARNESS-BUG: remote setup type");
@@ -537,6 +558,21 @@ macro_rules! suite {
                 ctx: Option<&[u8]>,
                 ids: Ids,
             ) -> PResult<(Obj, Obj)> {
+                if let Some(h) = setup.downcast_ref::<ServerSetup<$name, RemoteKeyH<$ke>>>() {
+                    let ServerLoginStartResult { message, state } = ServerLogin::<$name>::start(
+                        rng,
+                        h,
+                        record.map(|r| r.get::<ServerRegistration<$name>>().clone()),
+                        req.get::<CredentialRequest<$name>>().clone(),
+                        cred_id,
+                        ServerLoginStartParameters {
+                            context: ctx,
+                            identifiers: ids_of(ids),
+                        },
+                    )
+                    .map_err(cpr)?;
+                    return Ok((mk(Ty::CredResp, $label, message), mk(Ty::ServerLogin, $label, state)));
+                }
                 let setup = setup
                     .downcast_ref::<ServerSetup<$name, RemoteKey<$ke>>>()
                     .expect("HARNESS-BUG: remote setup type");
